@@ -288,3 +288,11 @@ package vuego
 //@   loop 1 invariant C03.scan.frame: chainEnd(nodes, 1, 0) == old(chainEnd(nodes, 1, 0)) &&
 //@     forall k int :: 0 <= k && k < len(nodes) ==> nodes[k] != nil && isChainMember(nodes[k]) == old(isChainMember(nodes[k]))
 //@   loop 1 use chainEndMono(nodes, idx, lastChainNodeIdx), chainEndMono(nodes, idx + 1, lastChainNodeIdx), chainEndMono(nodes, idx + 1, idx)
+
+//@ func (v *Vue) evalVFor(ctx, node, nodes, depth) (res, skip, err)
+//@   requires C04.head: len(nodes) >= 1
+//@   ensures C04.skip.range: 0 <= skip && skip < len(nodes)
+//@   loop 1 invariant C04.else.scan: 1 <= j && skipCount == 0
+
+//@ func (v *Vue) evaluate(ctx, nodes, depth) (res, err)
+//@   loop 0 invariant C03+C04.loop.bounds: 0 <= i && i <= len(nodes)
